@@ -157,9 +157,11 @@ theorem ignored_of_global (rules : List Pattern) (here n : Str) (hn : n = dotXvc
     simp only [List.any_eq_true]
     rcases hn with rfl | rfl
     · refine ⟨⟨"**/".toList ++ dotXvc, dotXvc, false, none, false⟩, hg _ (by rw [globalRules_eq]; simp), ?_⟩
-      simp [Pattern.m, xvc_glob_matches]
+      have := xvc_glob_matches here
+      simpa [Pattern.m] using this
     · refine ⟨⟨"**/".toList ++ dotGit, dotGit, false, none, false⟩, hg _ (by rw [globalRules_eq]; simp), ?_⟩
-      simp [Pattern.m, git_glob_matches]
+      have := git_glob_matches here
+      simpa [Pattern.m] using this
   simp [h1, h2]
 
 mutual
@@ -196,16 +198,14 @@ theorem walkWith_chain (extra : Str → List Pattern) (he : ∀ p, ∀ r ∈ ext
         have := ignored_of_global (rules ++ rulesOf here content ++ extra (childPath here f)) here f (Or.inl hf)
           (fun r hr => List.mem_append_left _ (hg' r hr))
           (fun r hr => by rcases List.mem_append.1 hr with h | h; exact hs' r h; exact he _ r h)
-        rw [List.append_assoc] at this
-        rw [this] at hni
-        exact Bool.noConfusion hni
+        simp only [List.append_assoc] at this
+        simp [this] at hni
       · intro hf
         have := ignored_of_global (rules ++ rulesOf here content ++ extra (childPath here f)) here f (Or.inr hf)
           (fun r hr => List.mem_append_left _ (hg' r hr))
           (fun r hr => by rcases List.mem_append.1 hr with h | h; exact hs' r h; exact he _ r h)
-        rw [List.append_assoc] at this
-        rw [this] at hni
-        exact Bool.noConfusion hni
+        simp only [List.append_assoc] at this
+        simp [this] at hni
     · obtain ⟨d, n, hpe, h1, h2, h3⟩ := walkDirs_chain extra he dirs _ here hg' hs'
         (fun r hr => ht r (by simp [treePatterns, hr])) p hp
       refine ⟨d, n, hpe, h1, h2, ?_⟩
